@@ -211,7 +211,7 @@ func runC20(r *Run) {
 
 	// --- composition-critical obligations shared with C16 / C13
 	r.checkCut(P)
-	r.checkReaderLayout(P, []string{"Create", "Recover", "Update"})
+	r.checkReaderLayout(P, r.checkWriterChunkOrder(P))
 
 	// --- same.path
 	if f := r.fn(P, pkgDocHandler, "GetCreateResult"); f != nil {
